@@ -283,7 +283,7 @@ class C18(VectorEngine):
     def gen_prog(self, rng):
         """random callable programs: fresh declarations only (a variable is never assigned below a block that declares or binds it)"""
         vars_ = ["x", "y"]
-        kinds = ["rule", "media", "lmixin", "mixin", "function", "content", "contentm"]
+        kinds = ["rule", "media", "lmixin", "lmixind", "mixin", "function", "content", "contentm"]
         maxlen = rng.randint(6, 14)
         prog, stack, decl = [], [], [set()]
         while True:
@@ -311,11 +311,11 @@ class C18(VectorEngine):
                 prog.append({"op": "read", "var": rng.choice(vars_), "arg": "-"})
             elif c == "open":
                 k = rng.choice(kinds)
-                if "function" in stack:
+                if set(stack) & {"function", "lfunctiond"}:
                     continue
-                if k == "lmixin" and not set(stack) <= {"rule", "media", "atrule"}:
+                if k in ("lmixin", "lmixind", "lfunctiond") and not set(stack) <= {"rule", "media", "atrule"}:
                     continue
-                v = rng.choice(vars_ + ["-"]) if k in ("mixin", "function", "content") else "-"
+                v = rng.choice(vars_ + ["-"]) if k in ("mixin", "function", "content", "lmixin", "lmixind") else "-"
                 prog.append({"op": "open", "var": v, "arg": k})
                 stack.append(k)
                 decl.append({v} if v != "-" else set())
